@@ -103,8 +103,13 @@ class C06(Check):
             else:
                 bits = format(w.getrandbits(n), f"0{n}b")
             op = w.choice(["check", "check", "correct"]) if CODES[c][5] else "check"
+            if w.random() < 0.15:
+                # the transmitter keeps using what generate() returned: the channel corrupts that very array in place
+                op, bits = "generate!", format(w.getrandbits(k), f"0{k}b") + ":" + str(w.randrange(n))
+            elif w.random() < 0.2:
+                bits = "le:" + bits  # same bit sequence in a little-endian bitarray (legal, unusual)
             ops.append([c, op, bits])
-            if not bits.startswith("cw:"):
+            if not bits.startswith(("cw:", "le:")) and op != "generate!":
                 recent.append(bits)
                 del recent[:-8]
         return {"task": "ops", "ops": ops}
@@ -152,6 +157,23 @@ class C06(Check):
             for i, (c, op, bits) in enumerate(case["ops"]):
                 cls, n, k, d, ham = get_code(c)
                 cs = codeset(c)
+                little = bits.startswith("le:")
+                if little:
+                    bits = bits[3:]
+                if op == "generate!":
+                    m, _, pos = bits.partition(":")
+                    arr = cls.generate(bitarray(m))
+                    cw = bitarray([int(x) for x in arr.tolist()])
+                    res["evals"] += 1
+                    ops_at[0] = i
+                    if len(cw) != n or cw[:k] != bitarray(m):
+                        fail("C06.systematic", c, f"call #{i}: {c}.generate({m}) = {cw.to01()} is not the message followed by {n - k} parity bits", None)
+                    elif not cls.check(cw.copy()):
+                        fail("C06.output-accepted", c, f"call #{i}: {c}.check rejects encoder output {cw.to01()}", None)
+                    arr[int(pos) % n] ^= 1  # channel error injected in place on the transmitter's buffer
+                    res["cov"].add(f"{c}|mixed|generate-inplace")
+                    log.add(i, c, op, bits)
+                    continue
                 if bits.startswith("cw:"):
                     parts = bits.split(":")
                     wd = bitarray(cls.generate(bitarray(parts[1])).tolist())
@@ -160,7 +182,10 @@ class C06(Check):
                             wd.invert(int(p))
                 else:
                     wd = bitarray(bits)
-                wi = ba2int(wd) if len(wd) else 0
+                if little:
+                    wd = bitarray(wd.to01(), endian="little")
+                    res["cov"].add(f"{c}|mixed|little-endian")
+                wi = int(wd.to01(), 2) if len(wd) else 0
                 res["evals"] += 1
                 ops_at[0] = i
                 self._one(res, fail, cls, c, n, k, d, cs, op, wd, wi, None, i, "mixed")
@@ -217,6 +242,10 @@ class C06(Check):
                             ok, rep = cls.check_and_correct(rx.copy())
                             if not ok or rep != cw:
                                 fail("C06.single-error-repair", c, f"{c}: single error at {p[0]} on {cw.to01()} -> ({ok}, {rep.to01()})", [[c, "correct", rx.to01()]])
+                            ok, rep = cls.check_and_correct(bitarray(rx.to01(), endian="little"))
+                            if not ok or rep.to01() != cw.to01():
+                                fail("C06.single-error-repair", c, f"{c}: single error at {p[0]} on {cw.to01()} given as a little-endian bitarray -> ({ok}, {rep.to01()})",
+                                     [[c, "correct", "le:" + rx.to01()]])
                         if c == "H16114" and w == 2:
                             ok, rep = cls.check_and_correct(rx.copy())
                             if ok:
@@ -259,7 +288,7 @@ class C06(Check):
                 want = (True, near[0])
             else:
                 want = None  # beyond single-error distance: property only constrains (16,11,4) doubles
-            ri = ba2int(rep)
+            ri = int(rep.to01(), 2)
             if want is not None and (bool(ok), ri) != want:
                 fail("C06.single-error-repair", c, f"call #{i}: {c}.check_and_correct({wd.to01()}) = ({ok}, {rep.to01()}), expected repair to {want[1]:0{n}b}", ops)
             if want is None and c == "H16114" and any(bin(x ^ wi).count("1") == 2 for x in cs) and ok:
